@@ -3,6 +3,12 @@
 Header: `ratelimiter kind=fixed|log|counter limit=L period=P timeout=T` (milliseconds).
 Fixed window and sliding log: arbitrary whole-millisecond instants. Sliding counter: periods 1/2/4 s and
 every instant on a 125 ms grid, so that every f64 operation of the weighted test is exact (dyadic).
+
+The wrapped service is the strict scripted service (`inner_call c k tag=c ready=0|1`).
+`manual busy ms=n`: the wrapped service is not ready (poll_ready pending, every instance) until n ms from now; a
+caller arriving meanwhile is turned away before `call` (`result c notready`) and the generator lets fresh callers
+retry later. `manual dropsvc`: every handle of the rate limiter is dropped (later arrivals are `noop`), the call
+futures made so far — polled or not — live on.
 """
 from gen.util import kvs, tparse, pick_outcome
 from gen.bulkhead import first_visited_at_or_after, _timeline
@@ -33,6 +39,8 @@ def gen(rng, tier):
     marks = [P, 2 * P]           # interesting instants: window boundaries, wake-ups, timeouts
     arrived = []
     nxt = 1
+    busy_until = 0               # the wrapped service is not ready before this instant (generator's own bookkeeping)
+    gone = False                 # `manual dropsvc` has been issued
 
     def q(d):
         return (d // GRID) * GRID if grid else d
@@ -49,10 +57,95 @@ def gen(rng, tier):
             marks.extend([now + P, now + T, now + lat, now + 2 * P])
         return c
 
+    def busy(d):
+        nonlocal busy_until
+        d = q(d)
+        ops.append("manual busy ms=%d" % d)
+        busy_until = now + d
+        marks.extend([now + d, now + d + P])
+
+    def busy_episode():
+        # the wrapped service stays busy across k window boundaries while callers keep arriving (they are turned
+        # away: their polls are `noop`); when it is ready again fresh callers retry
+        nonlocal now
+        k = rng.choice([1, 2, 2, 3])
+        if rng.random() < 0.5 and nxt < 40:
+            for _ in range(rng.choice([1, L])):
+                arrive(1.0)
+        busy(k * P + rng.choice([0, 1, P // 2, P // 2, P - 1]))
+        for w in range(k + 1):
+            if nxt < 40:
+                for _ in range(rng.choice([1, L, L, L + 1])):
+                    arrive(0.9)
+            if now >= busy_until:
+                break
+            d = q(rng.choice([P, P, P + 1, max(1, busy_until - now)]))
+            d = min(d, q(busy_until - now + rng.choice([0, 0, 1 if not grid else GRID])))
+            ops.append("adv %d" % d)
+            now += d
+        if now < busy_until and rng.random() < 0.8:
+            d = q(busy_until - now + (GRID - 1 if grid else 0))
+            ops.append("adv %d" % d)
+            now += d
+        if rng.random() < 0.8:
+            ops.append("settle")
+        if nxt < 40:
+            for _ in range(rng.choice([1, L, L + 1])):
+                arrive(0.9)
+
+    def dropsvc_episode():
+        # a batch of calls is made, every handle of the limiter goes away, only then are the responses driven
+        nonlocal gone, now
+        n = rng.choice([L, L + 1, L + 1, L + 2, 2 * L + 1])
+        ids = []
+        for _ in range(min(n, 7)):
+            if nxt < 40:
+                ids.append(arrive(rng.choice([0.0, 0.0, 0.3])))
+        ops.append("manual dropsvc")
+        gone = True
+        if rng.random() < 0.3:
+            d = q(rng.choice([1, P // 2, P, P + 1]))
+            ops.append("adv %d" % d)
+            now += d
+        rng.shuffle(ids)
+        ops.extend("poll %d" % c for c in ids)
+
+    # the first request need not come at the instant the limiter is built: it arrives part-way into the first period
+    # (the first window / bucket starts at construction, a sliding log's span starts at the first admission)
+    if rng.random() < 0.35:
+        x = q(rng.choice([1, P // 2, P // 2, P - 1, rng.randint(1, max(1, P - 1))]))
+        if grid and x == 0:
+            x = GRID
+        ops.append("adv %d" % x)
+        now += x
+        marks.append(now + P)
+        if rng.random() < 0.7:
+            for _ in range(rng.choice([1, L, L])):
+                arrive(1.0)
+            if rng.random() < 0.6:
+                # … and the next ones between construction + P and first admission + P
+                d = q(P - x + rng.choice([0, 0, 1, x // 2, max(0, x - 1)]))
+                ops.append("adv %d" % d)
+                now += d
+                for _ in range(rng.choice([1, 1, L])):
+                    arrive(1.0)
     nsteps = rng.randint(6, 32)
-    for _ in range(nsteps):
+    episode_at = rng.randrange(nsteps) if rng.random() < 0.25 else -1
+    dropsvc_at = rng.randrange(nsteps) if rng.random() < 0.12 else -1
+    for step_i in range(nsteps):
         r = rng.random()
-        if r < 0.22 and nxt < 40:
+        if step_i == episode_at and not gone:
+            busy_episode()
+        elif step_i == dropsvc_at and not gone:
+            dropsvc_episode()
+        elif r < 0.015 and not gone:
+            ops.append("manual dropsvc")
+            gone = True
+        elif r < 0.05 and not gone:
+            busy(rng.choice([0, 1, P // 2, P, P + P // 2, 2 * P + 1, rng.randint(0, 3 * P)]))
+        elif gone and r < 0.32 and rng.random() < 0.8:
+            ops.append("poll %d" % rng.choice(arrived[-8:]) if arrived else "settle")
+        elif r < 0.22 and nxt < 40:
             # a burst at one instant: L-1 / L / L+1 / more callers
             n = max(1, rng.choice([1, L - 1, L, L + 1, L + 2, 2 * L + 1]))
             ids = [arrive() for _ in range(min(n, 7))]
@@ -79,9 +172,11 @@ def gen(rng, tier):
         else:
             ops.append("settle")
     # C15: quiesce, stay idle for two full periods (exactly, or a little more), then a burst of L (+1) calls
-    if rng.random() < 0.75:
+    if rng.random() < 0.75 and not gone:
         ops.append("settle")
         ops.append("dropall")
+        if now < busy_until:
+            ops.append("manual busy ms=0")
         d = 2 * P + q(rng.choice([0, 0, 0, 1, P // 2, P, 3 * P]))
         if rng.random() < 0.15:
             d = q(max(0, 2 * P - (GRID if grid else 1)))     # just short of two periods: no promise
@@ -144,6 +239,18 @@ def admissions(lines):
         if w and w[0] == "inner_call":
             a.append(t)
     return a
+
+
+def mon_ready(case, lines, meta):
+    """Tower readiness contract, stated on the strict wrapped service's own log: it is only ever called on an
+    instance that has reported ready (poll_ready returned Ready on that very instance since its previous call)."""
+    for l in lines:
+        t, w = tparse(l)
+        if w and w[0] == "inner_call" and "ready=0" in w[2:]:
+            return ("caller %s: the wrapped service was called at t=%s on an instance that had not reported ready "
+                    "(Tower readiness contract: poll_ready must have returned Ready on the instance that is called, "
+                    "since that instance's previous call)" % (w[1], t))
+    return None
 
 
 _META = {}   # id(implementation lines) -> meta lines; lets `transitions` (called without meta by vlib.core) see #fp/#wake/#drop
@@ -324,7 +431,7 @@ COMMON = {
     "transitions": transitions,
     "nontrivial": nontrivial,
     "all_transitions": ["inner_call", "dropped-running", "result-ok", "result-err", "result-panic"]
-                       + ["dropped-before-admission"]
+                       + ["dropped-before-admission", "result-notready"]
                        + [k + ":" + x for k in KINDS for x in ("rejected", "admit-at-once", "reject-at-once", "sleep",
                                                                  "admit-after-wait", "reject-after-wait")],
     "model_modules": ["TR.Model.RateLimiter", "TR.Lemmas.RateLimiter", "TR.Mutants.AcquireWaitIsOk"],
@@ -332,7 +439,11 @@ COMMON = {
     "sizes": (600, 30000),
     "rule": "seeded random op sequences (bursts of L-1/L/L+1/more callers at one instant, polls, drops in every phase, advances biased "
             "to window boundaries / wake-up instants / timeouts -1/0/+1, settle) for the three window types, limit 1..4, timeout 0..3 periods, "
-            "followed by quiescence + two idle periods + a burst of L(+1) calls; sliding counter on a 125 ms grid with periods 1/2/4 s; "
+            "followed by quiescence + two idle periods + a burst of L(+1) calls; the wrapped service is the strict scripted service and is "
+            "made not-ready for 0..3.5 periods (`manual busy`, alone and in episodes where bursts keep arriving in every window while it is "
+            "busy and fresh callers retry afterwards); `manual dropsvc` (every limiter handle dropped) after a batch of calls whose futures have "
+            "not been polled yet, and at random points; in 35 % of the cases the first request comes part-way into the first period and the next ones between "
+            "construction + P and first admission + P; sliding counter on a 125 ms grid with periods 1/2/4 s; "
             "distinct = distinct implementation event log; non-trivial = a rate-limited rejection, a cancelled running call, or >= 3 admissions",
     "trusted": ["tokio sleep semantics (fires at the first visited instant >= deadline, deadline rounded up to 1 ms) — observed through the "
                 "@woke choice and constrained by the model, not proved",
@@ -349,14 +460,15 @@ LEVEL_NOTE = ("Trusted: Lean kernel; the transcription of limiter.rs / lib.rs in
               "'rejected at once / put to sleep' and 'timer has fired' as observed choices and checks them against the range the code guarantees.")
 
 SPECS = {
-    "C02": dict(COMMON, module="TR.Props.C02", monitors=[("c02-window-bound", mon_c02)],
+    "C02": dict(COMMON, module="TR.Props.C02", monitors=[("c02-window-bound", mon_c02), ("c02-called-only-when-ready", mon_ready)],
                 level_text="Theorems TR.Props.C02.{fixed_windows,counter_windows,log_span,admit_iff_granted,...}: for every limit >= 1, "
                            "timeout, period >= 1 and every operation sequence, the instants of the inner calls are exactly the limiter's grants; for "
                            "the fixed window and the sliding counter they are cut by the limiter's own window starts into consecutive windows "
                            ">= refresh_period apart with at most limit grants each; for the sliding log any limit+1 consecutive grants span >= "
                            "refresh_period. The model is tied to the real RateLimiterLayer by line-for-line agreement of event logs.",
                 level_note=LEVEL_NOTE),
-    "C15": dict(COMMON, module="TR.Props.C15", monitors=[("c15-decision-and-routing", mon_c15), ("c15-later-admission-takes-a-permit", mon_c02)],
+    "C15": dict(COMMON, module="TR.Props.C15", monitors=[("c15-decision-and-routing", mon_c15), ("c15-later-admission-takes-a-permit", mon_c02),
+                                                          ("c15-called-only-when-ready", mon_ready)],
                 level_text="Theorems TR.Props.C15.{decided_within_timeout,admitted_at_once_if_capacity,later_admission_takes_later_permit,"
                            "rejected_never_inner,admitted_exactly_once,idle_two_periods_refills,cancelled_waiter_consumes_nothing}: every sleeping "
                            "caller's timer is due by arrival + timeout and the poll after it decides; a first poll with room reaches the inner "
